@@ -416,6 +416,127 @@ def q_dispatch(a):
            "FAIL and SKIP select nothing; every element is visited; an evaluation error is an error of the query")
 
 
+def q_accumulate_map(a):
+    MV = struct_fields(a.src, "rules/path_value.rs", "MapValue")
+    models = common_models()
+    models.update({"zip": mirexec.m_zip, "values": mirexec.m_new_iter, "call": m_result_opq,
+                   "is_empty": lambda ex, av: ("bool", f"(= {ex.len_of(field(ex, av[0], MV.index('keys'), 'Vec'))} 0)") if av and av[0][0] == "opaque" else ex.havoc("bool")})
+    ex = a.exec(QCTX + "accumulate_map", models, log=("extend",), unroll=2, max_paths=20000)
+    a.fns.append("rules::eval_context::accumulate_map")
+    parent, mapv, qi, query, resolver, conv, func = (ex.arg_env[f"_{i}"] for i in range(1, 8))
+    keys = field(ex, mapv, MV.index("keys"), "Vec")
+    vals = field(ex, mapv, MV.index("values"), "IndexMap")
+    n = ex.len_of(keys)
+    bad, nrec = [], 0
+    for p in ex.paths:
+        r = p.ret
+        if p.outcome != "return" or r is None or r[0] != "enum":
+            bad.append(pc_term(p.pc))
+            continue
+        recs = calls(p, "call")
+        unres = calls(p, "to_unresolved_result")
+        if unres:
+            ok = len(unres) == 1 and not recs and r == unres[0][3] and same(unres[0][2][0], parent)
+            bad.append(f"(and {pc_term(p.pc)} (not {f'(= {n} 0)' if ok else 'false'}))")
+            continue
+        its = iterations(ex, p)
+        probs, idx_terms = [], []
+        for j, e in enumerate(recs):
+            nrec += 1
+            tup = e[2][1] if len(e[2]) > 1 else None
+            el = its[j][1] if j < len(its) else None
+            ok = (tup is not None and tup[0] == "tuple" and len(tup[1]) == 6 and el is not None and el[0] == "tuple"
+                  and tup[1][0][0] == "int" and same(tup[1][1], query) and same(tup[1][2], el[1][0]) and same(tup[1][3], el[1][1])
+                  and same(tup[1][5], conv) and tup[1][4][0] == "struct" and same(tup[1][4][2].get("root"), el[1][1])
+                  and same(tup[1][4][2].get("parent"), resolver))
+            if not ok:
+                probs.append("the j-th entry is not continued with (its key, its value, a scope rooted at its value)")
+            else:
+                idx_terms.append(f"(= {tup[1][0][1]} (+ {qi[1]} 1))")
+        exts = calls(p, "extend")
+        for j, x in enumerate(exts):
+            if j >= len(recs) or not same(x[2][1], recs[j][3][3]["Ok"]):
+                probs.append("results not accumulated in entry order")
+        # the key list and the value table are walked together from the same map
+        zips = [ex.iter_src.get(e[2][0][1]) for e in p.events if e[0] == "call" and e[1] == "next" and e[2] and e[2][0][0] == "opaque"]
+        if not any(isinstance(z, tuple) and z and z[0] == "zip" and same(z[1], keys) and same(z[2], vals) for z in zips):
+            probs.append("entries are not the map's own (key, value) pairs")
+        anyerr = "(or false " + " ".join(f"(= {e[3][2]} 1)" for e in recs) + ")"
+        n_it = "(+ 0 0 " + " ".join(f"(ite (= {t} 1) 1 0)" for _k, _e, t, _i in its) + ")"
+        good = (f"(and (not (= {n} 0)) {' '.join(idx_terms) if idx_terms else 'true'} "
+                f"(ite (= {r[2]} 0) (and (not {anyerr}) (= {n_it} {len(recs)}) (= {len(exts)} {len(recs)})) {anyerr}))")
+        bad.append(f"(and {pc_term(p.pc)} (not {'false' if probs else good}))")
+    _replay(a, a.discharge("query/accumulate_map", ex, bad,
+                           f"`*` / named `[*]` / key filter over a map of <= 2 entries ({nrec} continuation calls; keys and values assumed "
+                           "aligned): an empty map yields one unresolved entry for the map; otherwise, for every entry in order, the "
+                           "continuation is called at the NEXT position with that entry's key, that entry's value and a value scope rooted "
+                           "at that value on top of the caller's resolver; results are appended in entry order; the first error stops it"))
+
+
+def q_variable_head(a):
+    """a query that starts with a variable: every resolved value of the variable is continued separately"""
+    QP = enum_variants(a.src, "rules/exprs.rs", "QueryPart")
+    QR = enum_variants(a.src, "rules/mod.rs", "QueryResult")
+    holder = {}
+
+    def prep(ex):
+        query, cur = ex.opq(), ex.opq()
+        holder.update(query=query, cur=cur)
+        return {"_1": ("int", "0"), "_2": query, "_3": cur}
+    models = dict(common_models())
+    models.update({"is_variable": lambda ex, av: ("bool", "true"), "variable": lambda ex, av: ("enum", "Option", "1", {"Some": ex.opq()}),
+                   "unwrap": lambda ex, av: av[0][3].get("Some") if av and av[0][0] == "enum" else ex.opq(),
+                   "resolve_variable": m_result_opq})
+    ex = a.exec(QCTX + REC, models, log=("extend", "push"), unroll=2, max_paths=60000, prep=prep)
+    a.fns.append("rules::eval_context::query_retrieval_with_converter (variable head)")
+    h = holder
+    qlen = ex.len_of(h["query"])
+    bad, nval = [], 0
+    for p in ex.paths:
+        r = p.ret
+        rv = calls(p, "resolve_variable")
+        if p.outcome != "return" or r is None or r[0] != "enum":
+            bad.append(f"(and {pc_term(p.pc)} (> {qlen} 0))")
+            continue
+        if not rv:
+            bad.append(f"(and {pc_term(p.pc)} (> {qlen} 0))")      # only the empty query returns without resolving the variable
+            continue
+        vals = rv[0][3][3]["Ok"]
+        its = iterations(ex, p, it_filter=lambda ev: ex.iter_src.get(ev[2][0][1], ev[2][0]) == vals)
+        bounds = [i for _k, _e, _t, i in its] + [len(p.events)]
+        parts, probs = [f"(=> (= {rv[0][3][2]} 1) (= {r[2]} 1))"], []
+        nxt = ex.proj.get((h["query"][1], "[(+ 0 1)]")) or ex.proj.get((h["query"][1], "[1]"))
+        for n_, (k, el, tag, i0) in enumerate(its):
+            seg = [e for i, e in enumerate(p.events) if bounds[n_] <= i < bounds[n_ + 1] and e[0] == "call"]
+            recs = [e for e in seg if e[1] == REC]
+            if el is None:
+                continue
+            nval += 1
+            d = disc(ex, el)
+            unres = f"(= {d} {QR.index('UnResolved')})"
+            if recs:
+                e = recs[0]
+                v = None
+                for var in ("Literal", "Resolved"):
+                    pv = ex.proj.get((el[1], f"as {var}.0"))
+                    if pv is not None and same(e[2][2], pv):
+                        v = pv
+                sc = e[2][3] if len(e[2]) > 3 else None
+                ok = (len(recs) == 1 and v is not None and e[2][0][0] == "int" and same(e[2][1], h["query"]) and same(e[2][4], ex.arg_env["_5"])
+                      and sc is not None and sc[0] == "struct" and same(sc[2].get("root"), v) and same(sc[2].get("parent"), ex.arg_env["_4"]))
+                # position: 1, or 2 when the part after the variable is the `[*]` the parser inserts there
+                pos = f"(or (= {e[2][0][1]} 1) (= {e[2][0][1]} 2))"
+                parts.append(f"(and (= {tag} 1) (not {unres}) {pos} (< {e[2][0][1]} {qlen}))" if ok else "false")
+            else:
+                parts.append(f"(=> (= {tag} 1) (or {unres} (= {r[2]} 1) true))")
+        bad.append(f"(and {pc_term(p.pc)} (> {qlen} 0) (not {'false' if probs else '(and ' + ' '.join(parts) + ')'}))")
+    _replay(a, a.discharge("query/variable-head", ex, bad,
+                           f"query starting with `%var`, variable resolving to <= 2 values ({nval} value visits): the variable is resolved "
+                           "once through the resolver; an unresolved entry is passed on as it is and never traversed; every resolved / "
+                           "literal value is continued separately - same query, position 1 (or 2 past an inserted `[*]`), that value, "
+                           "a value scope rooted at that value - only while a query part remains; a resolution error is an error"))
+
+
 def replay_queries(a):
     exe = a.cli()
     if not exe:
@@ -432,4 +553,5 @@ def replay_queries(a):
     return a.replay_cases(exe, data, cases)
 
 
-SITES = {"C01": [q_accumulate, q_retrieve_index, q_map_resolved, q_filter_delegate, q_dispatch]}
+SITES = {"C01": [q_accumulate, q_accumulate_map, q_retrieve_index, q_map_resolved, q_filter_delegate, q_dispatch, q_variable_head],
+         "C15": [q_variable_head]}
